@@ -41,11 +41,12 @@ def zoo(rng, n):
         Vc = np.c_[Pc, np.zeros(len(Pc))] + np.array([t[0], t[1], 0.0])
         if np.linalg.norm(np.cross(Vc[2] - Vc[1], Vc[0] - Vc[1])) > 0:
             out.append(("ConvexPolygon", S.ConvexPolygon(Vc)))
-            out.append(("ConvexSpheropolygon", S.ConvexSpheropolygon(Vc, float(2.0 ** rng.integers(-3, 2)))))
+            # rounding radius 0 is a legitimate spheropolygon (the setter allows it): it must round-trip as one
+            out.append(("ConvexSpheropolygon", S.ConvexSpheropolygon(Vc, 0.0 if rng.random() < 0.25 else float(2.0 ** rng.integers(-3, 2)))))
         _, W = gen.convex_set(rng, kinds=("ellipsoid", "lattice", "prismatic"))
         cp = S.ConvexPolyhedron(W)
         out.append(("ConvexPolyhedron", cp))
-        out.append(("ConvexSpheropolyhedron", S.ConvexSpheropolyhedron(W, float(2.0 ** rng.integers(-3, 2)))))
+        out.append(("ConvexSpheropolyhedron", S.ConvexSpheropolyhedron(W, 0.0 if rng.random() < 0.25 else float(2.0 ** rng.integers(-3, 2)))))
         out.append(("Polyhedron", S.Polyhedron(np.array(cp.vertices), cp.faces)))
         if rng.random() < 0.5:
             name, Vv, F, cells = gen.voxel_solid(rng)
